@@ -34,55 +34,65 @@ LINKS = {
     },
     "C17": {
         "modules": ["RtrProofs.CLinkIntervals", "RtrProofs.CLinkMisc"],
-        "theorems": ["Rtr.CLink.rtr_check_interval_range_eq", "Rtr.CLink.apply_interval_value_eq", "Rtr.CLink.rtr_check_interval_option_eq",
+        "theorems": ["Rtr.CLink.rtr_wait_for_sync_eq", "Rtr.CLink.wait_for_sync_timeout", "Rtr.CLink.wait_for_sync_result", "Rtr.CLink.wait_for_sync_undefined_iff",
+                     "Rtr.CLink.rtr_check_interval_range_eq", "Rtr.CLink.apply_interval_value_eq", "Rtr.CLink.rtr_check_interval_option_eq",
                      "Rtr.CLink.c_check_interval_option_in_range", "Rtr.CLink.c_eod_intervals_in_range",
                      "Rtr.CLink.rtr_set_interval_mode_eq", "Rtr.CLink.rtr_set_interval_mode_model", "Rtr.CLink.rtr_get_interval_mode_eq",
                      "Rtr.CLink.tr_recv_all_eq", "Rtr.CLink.tr_recv_all_of_world", "Rtr.CLink.tr_recv_all_timeouts"],
-        "modules_extra": ["RtrProofs.CLinkIo"],
-        "functions": ["rtr_check_interval_range", "apply_interval_value", "rtr_check_interval_option", "rtr_set_interval_mode",
+        "modules_extra": ["RtrProofs.CLinkSync", "RtrProofs.CLinkIo"],
+        "functions": ["rtr_wait_for_sync", "rtr_check_interval_range", "apply_interval_value", "rtr_check_interval_option", "rtr_set_interval_mode",
                       "rtr_get_interval_mode", "tr_recv_all"],
-        "ops": "intervals+io",
+        "ops": "intervals+io+proto",
     },
     "C04": {
         "modules": ["RtrProofs.CLinkPdu"],
-        "theorems": ["Rtr.CLink.rtr_get_pdu_type_eq", "Rtr.CLink.rtr_pdu_check_size_eq", "Rtr.CLink.rtr_pdu_check_size_safe",
+        "theorems": ["Rtr.CLink.Recv.receive_pdu_eq_model", "Rtr.CLink.Recv.receive_pdu_defined", "Rtr.CLink.Recv.receive_pdu_lengths", "Rtr.CLink.Recv.receive_pdu_transport_errors", "Rtr.CLink.Recv.receive_pdu_success", "Rtr.CLink.Recv.receive_pdu_frame", "Rtr.CLink.Recv.receive_pdu_agrees_C", "Rtr.CLink.error_pdu_reads_in_bounds", "Rtr.CLink.rtr_handle_error_pdu_eq",
+                     "Rtr.CLink.rtr_get_pdu_type_eq", "Rtr.CLink.rtr_pdu_check_size_eq", "Rtr.CLink.rtr_pdu_check_size_safe",
                      "Rtr.CLink.rtr_pdu_check_size_mem_indep", "Rtr.CLink.rtr_pdu_check_size_true_iff",
                      "Rtr.CLink.rtr_pdu_header_to_host_byte_order_view", "Rtr.CLink.rtr_convert_then_check_size_eq",
                      "Rtr.CLink.tr_recv_all_eq", "Rtr.CLink.tr_recv_all_never_short"],
-        "modules_extra": ["RtrProofs.CLinkIo"],
-        "functions": ["rtr_get_pdu_type", "rtr_pdu_check_size", "lrtr_convert_long", "lrtr_convert_short",
+        "modules_extra": ["RtrProofs.CLinkRecv", "RtrProofs.CLinkRecvModel", "RtrProofs.CLinkSync", "RtrProofs.CLinkIo"],
+        "functions": ["rtr_receive_pdu", "rtr_handle_error_pdu", "rtr_get_pdu_type", "rtr_pdu_check_size", "lrtr_convert_long", "lrtr_convert_short",
                       "rtr_pdu_convert_header_byte_order", "rtr_pdu_header_to_host_byte_order", "tr_recv_all"],
-        "ops": "pdu+io",
+        "ops": "pdu+io+proto",
     },
     "C08": {
         "modules": ["RtrProofs.CLinkFsm", "RtrProofs.CLinkFsmModel"],
-        "theorems": ["Rtr.CLink.rtr_fsm_step_eq", "Rtr.CLink.rtr_purge_outdated_records_eq", "Rtr.CLink.rtr_fsm_start_eq",
+        "modules_extra": ["RtrProofs.CLinkSync", "RtrProofs.CLinkRecv"],
+        "theorems": ["Rtr.CLink.rtr_sync_eq", "Rtr.CLink.syncRound_wouldblock", "Rtr.CLink.syncRound_cache_reset", "Rtr.CLink.syncRound_recv_failed", "Rtr.CLink.Recv.receive_pdu_transport_errors",
+                     "Rtr.CLink.rtr_fsm_step_eq", "Rtr.CLink.rtr_purge_outdated_records_eq", "Rtr.CLink.rtr_fsm_start_eq",
                      "Rtr.CLink.fsm_error_states_retry", "Rtr.CLink.fsm_no_data_retry", "Rtr.CLink.fsm_no_incr_retry", "Rtr.CLink.fsm_fast_reconnect",
                      "Rtr.CLink.fsm_every_iteration_calls_out", "Rtr.CLink.fsm_every_iteration_consumes", "Rtr.CLink.fsm_shutdown_exits",
                      "Rtr.CLink.fsm_closed_or_invalid_spins", "Rtr.CLink.fsmStep_eq_skeleton", "Rtr.CLink.purgeOutdated_eq_skeleton"],
-        "functions": ["rtr_fsm_start", "rtr_purge_outdated_records"],
-        "ops": "fsm", "xtrace": True,
+        "functions": ["rtr_sync", "rtr_receive_pdu", "rtr_fsm_start", "rtr_purge_outdated_records"],
+        "ops": "fsm+proto", "xtrace": True,
     },
     "C07": {
         "modules": ["RtrProofs.CLinkFsm", "RtrProofs.CLinkFsmModel"],
-        "theorems": ["Rtr.CLink.rtr_purge_outdated_records_eq", "Rtr.CLink.purge_no_data", "Rtr.CLink.purge_fresh", "Rtr.CLink.purge_expired",
+        "modules_extra": ["RtrProofs.CLinkSync"],
+        "theorems": ["Rtr.CLink.rtr_set_last_update_eq", "Rtr.CLink.set_last_update_ok", "Rtr.CLink.set_last_update_clock_failed", "Rtr.CLink.sync_success_order",
+                     "Rtr.CLink.rtr_purge_outdated_records_eq", "Rtr.CLink.purge_no_data", "Rtr.CLink.purge_fresh", "Rtr.CLink.purge_expired",
                      "Rtr.CLink.fsm_connecting_purges_first", "Rtr.CLink.rtr_stop_eq", "Rtr.CLink.stop_purges", "Rtr.CLink.stop_not_running",
                      "Rtr.CLink.purgeOutdated_eq_skeleton", "Rtr.CLink.stop_eq_skeleton"],
-        "functions": ["rtr_purge_outdated_records", "rtr_fsm_start", "rtr_stop"],
-        "ops": "fsm",
+        "functions": ["rtr_set_last_update", "rtr_sync", "rtr_purge_outdated_records", "rtr_fsm_start", "rtr_stop"],
+        "ops": "fsm+proto",
     },
     "C05": {
         "modules": ["RtrProofs.CLinkFsm"],
-        "theorems": ["Rtr.CLink.rtr_fsm_step_eq", "Rtr.CLink.fsm_connecting_query_choice", "Rtr.CLink.fsm_connecting_open_fails",
+        "modules_extra": ["RtrProofs.CLinkSync"],
+        "theorems": ["Rtr.CLink.rtr_send_serial_query_eq", "Rtr.CLink.rtr_send_reset_query_eq", "Rtr.CLink.serial_query_contents", "Rtr.CLink.reset_query_contents", "Rtr.CLink.rtr_handle_cache_response_pdu_eq", "Rtr.CLink.cache_response_adopts_session", "Rtr.CLink.cache_response_foreign_session", "Rtr.CLink.cache_response_same_session", "Rtr.CLink.rtr_sync_eq", "Rtr.CLink.sync_success_order",
+                     "Rtr.CLink.rtr_fsm_step_eq", "Rtr.CLink.fsm_connecting_query_choice", "Rtr.CLink.fsm_connecting_open_fails",
                      "Rtr.CLink.fsm_reset_query", "Rtr.CLink.fsm_no_data_retry", "Rtr.CLink.fsm_no_incr_retry", "Rtr.CLink.stop_purges"],
-        "functions": ["rtr_fsm_start", "rtr_stop"],
-        "ops": "fsm",
+        "functions": ["rtr_send_serial_query", "rtr_send_reset_query", "rtr_handle_cache_response_pdu", "rtr_sync", "rtr_fsm_start", "rtr_stop"],
+        "ops": "fsm+proto",
     },
     "C13": {
         "modules": ["RtrProofs.CLinkFsm"],
-        "theorems": ["Rtr.CLink.rtr_fsm_step_eq", "Rtr.CLink.fsm_connecting_purges_first", "Rtr.CLink.fsm_fast_reconnect"],
-        "functions": ["rtr_fsm_start"],
-        "ops": "fsm",
+        "modules_extra": ["RtrProofs.CLinkRecv", "RtrProofs.CLinkSync"],
+        "theorems": ["Rtr.CLink.Recv.receive_pdu_eq_model", "Rtr.CLink.Recv.receive_pdu_version", "Rtr.CLink.Recv.downgrade_spec", "Rtr.CLink.Recv.downgrade_version_le", "Rtr.CLink.Recv.receive_pdu_socket", "Rtr.CLink.sync_downgrade", "Rtr.CLink.sync_version_only_downgrade", "Rtr.CLink.error_pdu_downgrade", "Rtr.CLink.error_pdu_no_downgrade", "Rtr.CLink.error_pdu_version_le", "Rtr.CLink.rtr_sync_eq",
+                     "Rtr.CLink.rtr_fsm_step_eq", "Rtr.CLink.fsm_connecting_purges_first", "Rtr.CLink.fsm_fast_reconnect"],
+        "functions": ["rtr_receive_pdu", "rtr_sync", "rtr_handle_error_pdu", "rtr_fsm_start"],
+        "ops": "fsm+proto",
     },
     "C10": {
         "modules": ["RtrProofs.CLinkMisc", "RtrProofs.CLinkSpki"],
@@ -93,12 +103,13 @@ LINKS = {
     },
     "C14": {
         "modules": ["RtrProofs.CLinkMisc"],
-        "modules_extra": ["RtrProofs.CLinkIo"],
-        "theorems": ["Rtr.CLink.lrtr_convert_long_eq", "Rtr.CLink.lrtr_convert_short_eq",
+        "modules_extra": ["RtrProofs.CLinkRecv", "RtrProofs.CLinkSync", "RtrProofs.CLinkIo"],
+        "theorems": ["Rtr.CLink.Recv.receive_pdu_echo", "Rtr.CLink.Recv.receive_pdu_buffer_on_error", "Rtr.CLink.serial_query_contents", "Rtr.CLink.reset_query_contents",
+                     "Rtr.CLink.lrtr_convert_long_eq", "Rtr.CLink.lrtr_convert_short_eq",
                      "Rtr.CLink.tr_send_all_eq", "Rtr.CLink.tr_send_all_of_world", "Rtr.CLink.tr_send_all_chunks", "Rtr.CLink.tr_send_all_timeouts"],
-        "functions": ["lrtr_convert_long", "lrtr_convert_short", "rtr_pdu_convert_header_byte_order", "rtr_pdu_header_to_host_byte_order",
+        "functions": ["rtr_receive_pdu", "rtr_send_serial_query", "rtr_send_reset_query", "lrtr_convert_long", "lrtr_convert_short", "rtr_pdu_convert_header_byte_order", "rtr_pdu_header_to_host_byte_order",
                       "tr_send_all"],
-        "ops": "conv+io",
+        "ops": "conv+io+proto",
     },
 }
 
@@ -300,7 +311,74 @@ def ops_fsm(r, n):
     return ops
 
 
-OPS = {"fsm": ops_fsm, "bits": ops_bits, "intervals": ops_intervals, "pdu": ops_pdu, "hash": ops_hash, "conv": ops_conv, "io": ops_io}
+def ops_proto(r, n):
+    """the translated protocol functions next to their specifications: random sockets, buffers and answers of the callees"""
+    ops = []
+
+    def sock(**kw):
+        s = {"refresh": r.choice([1, 300, 3600, 86400]), "lu": r.choice([0, 100, 1000, r.randrange(1, 10 ** 6)]),
+             "expire": r.choice([600, 7200]), "retry": r.choice([1, 600]), "iv": r.choice([0, 1, 2, 3]), "state": r.choice([1, 3, 0]),
+             "sid": r.randrange(65536), "rq": r.choice([0, 1]), "sn": r.randrange(U32), "th": 5, "ver": r.choice([0, 1]), "hp": r.choice([0, 1]), "ir": r.choice([0, 1])}
+        s.update(kw)
+        return [s[k] for k in ("refresh", "lu", "expire", "retry", "iv", "state", "sid", "rq", "sn", "th", "ver", "hp", "ir")]
+
+    def st(x):
+        return " ".join(str(v) for v in x)
+
+    def ans(rc, aux, buf, so):
+        return "%d %d %s %s" % (rc, aux, buf or "-", st(so))
+    for _ in range(max(40, n // 6)):
+        s0 = sock()
+        dl = s0[1] + s0[0]
+        now = r.choice([dl - 1, dl, dl + 1, s0[1], dl + 10 ** 6, r.randrange(10 ** 7), 2 ** 63 - 1 if r.random() < 0.05 else dl])
+        rc = r.choice([12, 0, 8, -1, -2, -3, -4])
+        ty = r.choice([0, 0, 3, 8, 10, 4, 255])
+        ops.append("proto_fn wait_for_sync %s ; - ; %s ; %s" % (st(s0), ans(0, now, "", s0), ans(rc, 0, "01%02x0000" % ty, sock(state=s0[5]))))
+        ops.append("proto_fn set_last_update %s ; - ; %s ; %s" % (st(s0), ans(r.choice([0, 0, -1]), r.randrange(10 ** 7), "", s0), ans(0, 0, "", sock(state=7))))
+        for q in ("serial_query", "reset_query"):
+            ops.append("proto_fn %s %s ; - ; %s ; %s" % (q, st(s0), ans(r.choice([0, 0, -1, 5]), 0, "", s0), ans(0, 0, "", sock(state=8))))
+        sid = r.choice([s0[6], s0[6] ^ 1, r.randrange(65536)])
+        ops.append("proto_fn cache_response %s ; %02x03%04x00000008 ; %s ; %s" % (st(s0), s0[10], sid, ans(0, 0, "", s0), ans(0, 0, "", sock(state=7))))
+        ln = r.choice([16, 16, 20, 40])
+        enc = r.choice([0, 0, ln - 16, 4, U32 - 1, ln])
+        body = bytearray(max(0, ln - 12))
+        txt_off = enc
+        if txt_off + 4 <= len(body):
+            body[txt_off:txt_off + 4] = (max(0, ln - 16 - enc)).to_bytes(4, "little")
+        ops.append("proto_fn error_pdu %s ; %02x0a%s%s%s%s ; %s" % (st(s0), r.choice([0, 1, 2]), (r.choice([0, 1, 2, 3, 4, 5, 6, 8, 9])).to_bytes(2, "little").hex(),
+                                                                      ln.to_bytes(4, "little").hex(), (enc % U32).to_bytes(4, "little").hex(), body.hex(), ans(0, 0, "", sock())))
+        # rtr_sync: a few rounds of answers (cancel, receive, cancel, then the dispatch)
+        rounds = []
+        cur = s0
+        for _k in range(r.randrange(1, 4)):
+            t = r.choice([0, 0, 3, 3, 8, 10, 6])
+            rcv = r.choice([12, 12, 12, -1, -2, -4])
+            nxt = sock(state=cur[5], rq=cur[7], ver=cur[10])
+            rounds += [ans(0, 0, "", cur), ans(rcv, 0, "01%02x00000000000c" % t, nxt), ans(0, 0, "", nxt)]
+            cur = nxt
+            if rcv < 0 or t != 0:
+                break
+        rounds += [ans(r.choice([0, -1]), 0, "", sock()) for _ in range(4)]
+        ops.append("proto_fn sync %s ; - ; %s" % (st(s0), " ; ".join(rounds)))
+        # rtr_receive_pdu: header answer, payload answer, footer/report/state answers
+        ver = r.choice([0, 1, 1, 2])
+        ty = r.choice([0, 3, 4, 7, 8, 10, 10, 5, 255])
+        sizes = {0: 12, 3: 8, 4: 20, 7: 12 if ver == 0 else 24, 8: 8, 10: 16}
+        ln = r.choice([sizes.get(ty, 8), sizes.get(ty, 8), 7, 0, 9, 3248, 3249, U32 - 1, r.randrange(8, 64)])
+        hdr = "%02x%02x%04x%08x" % (ver, ty, r.randrange(65536), ln)
+        pl = max(0, min(ln, 3248) - 8)
+        payload = bytearray(r.randrange(256) for _ in range(pl))
+        if ty == 10 and pl >= 8:
+            payload[0:4] = r.choice([0, pl - 8, U32 - 16, U32 - 1, 4]).to_bytes(4, "big") if True else b""
+        rc1 = r.choice([8, 8, 8, 8, -1, -2, -3, -4, -7])
+        rc2 = r.choice([pl, pl, pl, -1, -2, -4])
+        so = sock(state=r.choice([1, 3, 9]), hp=r.choice([0, 1]), ver=r.choice([0, 1]))
+        extra = [ans(0, 0, payload.hex()[:80] or "-", so) for _ in range(3)]
+        ops.append("proto_fn receive_pdu %s ; - ; %s ; %s ; %s" % (st(so), ans(rc1, 0, hdr, so), ans(rc2, 0, payload.hex() or "-", so), " ; ".join(extra)))
+    return ops
+
+
+OPS = {"proto": ops_proto, "fsm": ops_fsm, "bits": ops_bits, "intervals": ops_intervals, "pdu": ops_pdu, "hash": ops_hash, "conv": ops_conv, "io": ops_io}
 
 
 def search(pid, tier):
